@@ -22,6 +22,8 @@ def Sound (D : Bytes) : Buf → Prop
       ((scan s).2 = .eof → (scan s).1.flatten = D)
   | .reader d s => d.size = D.length ∧ d.valid D = true ∧ (scan s).1.flatten <+: D ∧
       ((scan s).2 = .eof → (scan s).1.flatten = D)
+  | .clone d s => d.size = D.length ∧ d.valid D = true ∧ (scan s).1.flatten <+: D ∧
+      ((scan s).2 = .eof → (scan s).1.flatten = D)
 
 def SoundH (D : Bytes) (h : List Resp) : Prop := ∀ b, Resp.repl b ∈ h → Sound D b
 
@@ -37,6 +39,7 @@ theorem Sound.good {D : Bytes} {b : Buf} (s : Sound D b) : Good D b := by
   | error e => trivial
   | chunks d sc => exact ⟨s.1, s.2.2.1⟩
   | reader d sc => exact ⟨s.1, s.2.2.1⟩
+  | clone d sc => exact ⟨s.1, s.2.2.1⟩
 
 theorem SoundH.good {D : Bytes} {h : List Resp} (s : SoundH D h) : GoodH D h := fun b hb => (s b hb).good
 
@@ -83,6 +86,7 @@ theorem whole_sound {D : Bytes} {b : Buf} {e : Err} (s : Sound D b) (he : whole 
   | error e' => simp [whole] at he; subst he; exact s
   | chunks d sc => exact casFull_sound s.1 s.2.1 s.2.2.1 s.2.2.2 he
   | reader d sc => exact casFull_sound s.1 s.2.1 s.2.2.1 s.2.2.2 he
+  | clone d sc => exact casFull_sound s.1 s.2.1 s.2.2.1 s.2.2.2 he
 
 theorem baseSlice_sound {D : Bytes} {max : Nat} {b : Buf} {e : Err} (s : Sound D b)
     (he : baseSlice max b = .error e) : ¬ e.isCorruption := by
@@ -103,6 +107,11 @@ theorem baseSlice_sound {D : Bytes} {max : Nat} {b : Buf} {e : Err} (s : Sound D
     by_cases hh : d.size > max
     · rw [if_pos hh] at he; cases he; simp [Err.isCorruption]
     · rw [if_neg hh] at he; exact casFull_sound s.1 s.2.1 s.2.2.1 s.2.2.2 he
+  | clone d sc =>
+    simp only [baseSlice] at he
+    by_cases hh : d.size > max
+    · rw [if_pos hh] at he; cases he; simp [Err.isCorruption]
+    · rw [if_neg hh] at he; exact casFull_sound s.1 s.2.1 s.2.2.1 s.2.2.2 he
 
 theorem baseReadAt_sound {D : Bytes} {off n : Nat} {b : Buf} {e : Err} (s : Sound D b)
     (he : baseReadAt off n b = .error e) : ¬ e.isCorruption := by
@@ -114,6 +123,11 @@ theorem baseReadAt_sound {D : Bytes} {off n : Nat} {b : Buf} {e : Err} (s : Soun
     · rw [if_neg hh] at he; cases he
   | error e' => simp [baseReadAt] at he; subst he; exact s
   | chunks d sc =>
+    simp only [baseReadAt] at he
+    cases hc : casFull d sc with
+    | error e' => rw [hc] at he; cases he; exact casFull_sound s.1 s.2.1 s.2.2.1 s.2.2.2 hc
+    | ok data => rw [hc] at he; cases he
+  | clone d sc =>
     simp only [baseReadAt] at he
     cases hc : casFull d sc with
     | error e' => rw [hc] at he; cases he; exact casFull_sound s.1 s.2.1 s.2.2.1 s.2.2.2 hc
@@ -181,6 +195,12 @@ theorem openChunks_sound {D : Bytes} {b : Buf} (off m : Nat) (s : Sound D b) :
       by_cases hh : off > (scan sc).1.flatten.length
       · rw [if_pos hh]
       · rw [if_neg hh]
+    rw [hterm]
+    simp only [content] at hfl
+    exact ⟨fun he => by rw [hfl, s.2.2.2 he], fun e he => scan_term_not_corrupt sc e he⟩
+  | clone d sc =>
+    have hterm : (openChunks (.clone d sc) off m).2 = (scan sc).2 := by
+      simp only [openChunks]; cases dropChunks ((scan sc).1.flatMap (pieces (min m cloneChunk))) off <;> rfl
     rw [hterm]
     simp only [content] at hfl
     exact ⟨fun he => by rw [hfl, s.2.2.2 he], fun e he => scan_term_not_corrupt sc e he⟩
@@ -334,6 +354,11 @@ theorem openReader_sound {D : Bytes} {b : Buf} (off : Nat) (s : Sound D b) :
   | reader d sc =>
     have hterm : (openReader (.reader d sc) off).term = (scan sc).2 := by
       simp only [openReader]; cases dropChunks (scan sc).1 off <;> rfl
+    rw [hterm]
+    exact ⟨fun he => s.2.2.2 he, fun e he => scan_term_not_corrupt sc e he⟩
+  | clone d sc =>
+    have hterm : (openReader (.clone d sc) off).term = (scan sc).2 := by
+      simp only [openReader]; cases dropChunks ((scan sc).1.flatMap (pieces cloneChunk)) off <;> rfl
     rw [hterm]
     exact ⟨fun he => s.2.2.2 he, fun e he => scan_term_not_corrupt sc e he⟩
 
@@ -573,7 +598,7 @@ namespace BB.ErrorHandling
 
 theorem IsCas.of_sound {d : Digest} {D : Bytes} {b : Buf} (hc : IsCas d b) (s : Sound D b) :
     d.size = D.length ∧ d.valid D = true := by
-  obtain ⟨sc, rfl | rfl⟩ := hc <;> exact ⟨s.1, s.2.1⟩
+  obtain ⟨sc, rfl | rfl | rfl⟩ := hc <;> exact ⟨s.1, s.2.1⟩
 
 theorem mem_of_prefix {α : Type} {l l' : List α} {x : α} (hp : l <+: l') (hx : x ∈ l) : x ∈ l' := by
   obtain ⟨r, rfl⟩ := hp
@@ -709,6 +734,7 @@ theorem withEH_log_sound (D : Bytes) : ∀ (h : List Resp) (base : Buf), Sound D
   | h, .bytes data, _, _, e, he => by simp [withEH] at he
   | h, .chunks d s, _, _, e, he => by simp [withEH] at he
   | h, .reader d s, _, _, e, he => by simp [withEH] at he
+  | h, .clone d s, _, _, e, he => by simp [withEH] at he
   | [], .error e0, hb, _, e, he => by simp [withEH] at he; subst he; exact hb
   | .fail k :: h, .error e0, hb, _, e, he => by simp [withEH] at he; subst he; exact hb
   | .repl b :: h, .error e0, hb, hh, e, he => by
